@@ -17,37 +17,19 @@ import os
 from concurrent.futures import ThreadPoolExecutor
 
 from gverif import tlc
-from gverif.common import SEED, die
+from gverif.common import SEED, die  # noqa: I001
 from gverif.harness import Run
 
 Q = lambda xs: ", ".join(f'"{x}"' for x in xs)  # noqa: E731
 
-CORE = ["def", "defh2", "defdoc2", "cls", "clsdoc1", "asg", "asgp3", "tup", "str1", "fromp4", "if", "else", "cmt", "init", "sasg", "with"]
-CLEAN_ALL = ["def", "defh2", "defdoc1", "defdoc2", "defdocp3", "defh2doc2", "adef", "def1l", "def1l2", "init",
-             "cls", "clsh3", "clsdoc1", "clsdoc2", "cls1l",
-             "asg", "asgp3", "asgs2", "asgs2c0", "asgb2", "ann", "ann0", "annp3", "tup", "chain", "semi", "semis2", "sasg", "sasgp3",
-             "imp", "imp2", "from", "from2", "fromp4", "fromb2", "star",
-             "if", "ifh2", "for", "with", "withh3", "else", "expr", "exprp2", "str1", "str2", "strp3", "blank", "cmt", "cmt0"]
-CLEAN_DECOS = ["none", "d1", "d1d1", "d2", "d1d2"]
-HAZARD = ["def", "cls", "clsdoc1", "asg", "str1", "if", "else", "for", "cmt", "ff", "cmtls", "asgnel"]
-HAZARD_DECOS = ["none", "d1", "dp", "prop", "d1prop"]
-TWIN = ["def", "defdoc2", "defh2", "cls", "clsdoc1", "asg", "asgp3", "ann0", "cmt"]
-
-CLEAN_INV = []
-DEFECT_INV = {"SpanExact", "DocExact", "TextExact", "Loadable"}
-TWIN_DEFECT_INV = {"FileExact", "TextExact"}
-
-
-def jobs(tier: str) -> list:
-    """(name, cfg, constants, expected violated invariants, workers)."""
-    deep = tier == "thorough"
-    return [
-        ("core", "SrcLayout_core.cfg", {"MAXLEN": 4 if deep else 3, "FORMS": Q(CORE), "DECOS": Q(["none", "d1d2"]), "HEADS": "HeadsOne"}, set(), 8 if deep else 4),
-        ("wide", "SrcLayout_core.cfg", {"MAXLEN": 3 if deep else 2, "FORMS": Q(CLEAN_ALL), "DECOS": Q(CLEAN_DECOS), "HEADS": "HeadsQuick" if deep else "HeadsAll"}, set(), 8 if deep else 2),
-        ("defect", "SrcLayout_defect.cfg", {"MAXLEN": 3, "FORMS": Q(HAZARD), "DECOS": Q(HAZARD_DECOS), "HEADS": "HeadsDefectDeep" if deep else "HeadsDefect"}, DEFECT_INV, 2),
-        ("twin", "SrcLayout_twin.cfg", {"MAXLEN": 4 if deep else 3, "FORMS": Q(TWIN), "DECOS": Q(["none", "d1"]), "HEADS": "HeadsQuick", "INPY": "TRUE"}, set(), 2),
-        ("twin-defect", "SrcLayout_twin.cfg", {"MAXLEN": 3, "FORMS": Q(TWIN), "DECOS": Q(["none", "d1"]), "HEADS": "HeadsOne", "INPY": "TRUE, FALSE"}, TWIN_DEFECT_INV, 2),
-    ]
+GROUPS = {   # domains of spec/SrcLayout.tla (DomTab) per TLC run
+    "quick": [("clean", ["core", "wide"], 4), ("hazard", ["breaks", "decos", "leak", "bom", "twin", "twinx"], 3)],
+    "thorough": [("core", ["core"], 6), ("wide", ["wide", "mid"], 6), ("hazard", ["breaks", "decos", "leak", "bom", "twin", "twinx"], 4)],
+}
+# every defect domain must make TLC report the unconditioned clause violated (the model exhibits the defect)
+EXHIBIT = [("breaks", "TextExact"), ("decos", "SpanExact"), ("leak", "DocExact"), ("bom", "Loadable"), ("twinx", "FileExact"), ("twinx", "TextExact")]
+# ... and every named cause must be seen in the model's own deviation table (implx) of some emitted layout
+EXPECT_DOMAINS = {"core", "wide", "breaks", "decos", "leak", "bom", "twin", "twinx"}
 
 
 def modes_for(idx: int, case: dict, tier: str) -> tuple:
@@ -66,11 +48,19 @@ def modes_for(idx: int, case: dict, tier: str) -> tuple:
     return tuple(m)
 
 
-def run_job(job, tier):
-    name, cfg, consts, expect, workers = job
-    res = tlc.run("SrcLayout", cfg, workers=workers, constants=consts, extra=["-continue"] if expect else None,
-                  timeout=3000 if tier == "thorough" else 600, heap="6g" if tier == "thorough" else "3g")
-    return job, res
+def run_group(group, tier):
+    name, doms, workers = group
+    res = tlc.run("SrcLayout", "SrcLayout_run.cfg", workers=workers, constants={"DOMAINS": Q(doms), "DEEP": "TRUE" if tier == "thorough" else "FALSE"},
+                  timeout=3000 if tier == "thorough" else 900, heap="8g" if tier == "thorough" else "3g")
+    return group, res
+
+
+def run_exhibits():
+    out = []
+    for d, inv in EXHIBIT:
+        res = tlc.run("SrcLayout", "SrcLayout_exhibit.cfg", workers=1, constants={"DOMAINS": Q([d]), "INV": inv}, timeout=600)
+        out.append((d, inv, res))
+    return out
 
 
 def replay_file(run: Run, path: str):
@@ -87,7 +77,7 @@ def replay_file(run: Run, path: str):
     run.evaluated(res["objects"])
     for sig, what in res["viol"]:
         run.violation(sig, what, c)
-    r = tlc.run("SrcLayout", "SrcLayout_core.cfg", workers=1, constants={"MAXLEN": 1, "FORMS": Q(CORE), "DECOS": Q(["none"]), "HEADS": "HeadsOne"})
+    r = tlc.run("SrcLayout", "SrcLayout_run.cfg", workers=1, constants={"DOMAINS": Q(["bom"]), "DEEP": "FALSE"})
     run.add_tlc(tlc.must(r))
     run.finish()
 
@@ -109,24 +99,22 @@ def main(tier: str, replay: str | None = None):
     idx = 0
     fatal = None
     meta = {}
+    doms_seen = set()
     try:
         with ThreadPoolExecutor(max_workers=5) as ex:
-            futs = [ex.submit(run_job, job, tier) for job in jobs(tier)]
+            futs = [ex.submit(run_group, g, tier) for g in GROUPS[tier]]
+            fex = ex.submit(run_exhibits)
             for fut in futs:
-                job, res = fut.result()
-                name, cfg, consts, expect, _ = job
-                tlc.must(res, allow_violations=bool(expect))
-                got = set(res.violated)
-                if expect and not expect <= got:
-                    die(f"X02: defect configuration {name} no longer violates {sorted(expect - got)} (model lost a defect)")
-                if got - expect - {"EmitCase"}:
-                    die(f"X02: configuration {name} violates {sorted(got - expect)} on the model")
+                group, res = fut.result()
+                name = group[0]
+                tlc.must(res)
                 run.add_tlc(res)
                 if not res.cases:
-                    die(f"X02: configuration {name} emitted no layout")
+                    die(f"X02: TLC run {name} emitted no layout")
                 chunk = []
                 for case in res.cases:
-                    meta[idx] = (name, case)
+                    meta[idx] = (case["dom"], case)
+                    doms_seen.add(case["dom"])
                     chunk.append((idx, case, idx % 4, modes_for(idx, case, tier)))
                     idx += 1
                     if len(chunk) == 40:
@@ -135,6 +123,12 @@ def main(tier: str, replay: str | None = None):
                 if chunk:
                     pending.append(pool.apply_async(x02_replay.check_chunk, (chunk,)))
                 res.cases = []
+            for d, inv, res in fex.result():
+                if res.errors or inv not in res.violated:
+                    die(f"X02: defect domain {d} no longer violates {inv} on the model (errors={res.errors[:2]})")
+                run.add_tlc(res)
+        if EXPECT_DOMAINS - doms_seen:
+            die(f"X02: no layout emitted for domains {sorted(EXPECT_DOMAINS - doms_seen)}")
         seen_causes = set()
         for p in pending:
             for i, r in p.get(timeout=3000):
